@@ -5,7 +5,8 @@ open MgModel MgModel.C13 MgModel.Driver
 /-!
 Line protocol (one answer line per op line):
 
-    cfg <hints_max_fd> <use_mem_pool> [L]     L = legacy poll accounting (unfixed tree)
+    cfg <hints_max_fd> <use_mem_pool> [L] [M] [C]   L = legacy poll accounting, M = legacy select scan
+                                              (unfixed trees); C = cb_close closes the descriptor
     fd pipe|sock|tcp                          declares the next descriptor (ids 0,1,2,…)
     rm <d> all | rm <d> <k>                   read mode of descriptor d's cb_read
     pre <act>…                                actions before muggle_evloop_run
@@ -26,6 +27,8 @@ inductive Trig where
 structure DSt where
   hints  : Nat := 8
   legacy : Bool := false
+  legacySel : Bool := false
+  closeFd : Bool := false
   kinds  : List Kind := []
   rmodes : List (Nat × RMode) := []
   pre    : List Act := []
@@ -74,6 +77,7 @@ def showEv : Ev → String
   | .wake => "W"
   | .clear c => s!"X{c}"
   | .exit => "E"
+  | .waitErr => "ERR"
   | .fuel => "F"
 
 def showFate : Fate → String
@@ -93,7 +97,8 @@ def inClassP (st : DSt) : Bool :=
 def stepLine (st : DSt) : List String → DSt × String
   | "cfg" :: h :: _pool :: rest =>
     match h.toNat? with
-    | some h => ({ st with hints := if h < 1 then 8 else h, legacy := rest = ["L"] }, "ok")
+    | some h => ({ st with hints := if h < 1 then 8 else h, legacy := rest.contains "L",
+                           legacySel := rest.contains "M", closeFd := rest.contains "C" }, "ok")
     | none => (st, "bad-op")
   | ["fd", k] =>
     if st.kinds.length ≥ 16 then (st, "bad-op") else
@@ -143,7 +148,7 @@ def stepLine (st : DSt) : List String → DSt × String
     match bk with
     | none => (st, "bad-op")
     | some bk =>
-      let s := scenario bk st.hints st.legacy st.kinds st.pre (mkScript st) 4000
+      let s := scenario bk st.hints st.legacy st.kinds st.pre (mkScript st) 4000 st.legacySel st.closeFd
       let oc := outcomes s
       let tr := " ".intercalate (s.events.map showEv)
       ({ st with runs := st.runs ++ [oc] },
